@@ -17,6 +17,7 @@ type hb struct {
 	ID    string
 	Nexts int // for non-aborting handlers: 0, 1, 2
 	Ab    *abortPlan
+	SetStatusFirst int // != 0: this handler records that status at entry (SetStatus, nothing committed)
 }
 
 type abortPlan struct {
@@ -24,6 +25,7 @@ type abortPlan struct {
 	When        string // before | after | without   (relative to the handler's own Next())
 	ExtraNext   bool   // one more Next() after the abort
 	WriteBefore bool   // a body byte is written before the abort (response already committed)
+	PreStatus   int    // != 0: the FIRST handler of the chain records this status (without committing) before anything else
 	Code        int
 }
 
@@ -43,6 +45,9 @@ func (h hb) String() string {
 	if a.WriteBefore {
 		s += " write-before"
 	}
+	if a.PreStatus != 0 {
+		s += fmt.Sprintf(" after-first-handler-SetStatus(%d)", a.PreStatus)
+	}
 	return s + ")"
 }
 
@@ -56,6 +61,9 @@ func (h hb) handler() rux.HandlerFunc {
 		rec := recOf(c)
 		rec.Ev("enter(%s)", h.ID)
 		ia(c, rec, "entry")
+		if h.SetStatusFirst != 0 {
+			c.SetStatus(h.SetStatusFirst)
+		}
 		if h.Ab == nil {
 			for i := 0; i < h.Nexts; i++ {
 				c.Next()
@@ -277,7 +285,7 @@ func (cc c05Chain) build() *rux.Router {
 }
 
 func runC05(e *Env) {
-	e.Rule = "chains global+group+route middleware+main built through Use (one or several calls), Group middleware, variadic route middleware and Route.Use; exhaustive: every chain length 1..L (L=7 quick, 9 thorough) x every position of the aborting handler x {Abort, AbortThen, AbortWithStatus(code), AbortWithStatus(code,msg)} x abort before/after/without its own Next() x extra Next() after the abort x every subset of the other handlers calling/not calling Next() x body byte written before the abort or not; sampled: long chains with totals around 31..33 and 61..63 and random behaviours (incl. double Next). Observed: enter/leave/abort events and IsAborted() sampled at entry, before/after the abort call and at leave of every handler, status/body at the recording writer. Oracle: specification-level interpreter of Next/Abort. Non-trivial: every case (each has an abort); distinct by chain description."
+	e.Rule = "chains global+group+route middleware+main built through Use (one or several calls), Group middleware, variadic route middleware and Route.Use; exhaustive: every chain length 1..L (L=7 quick, 9 thorough) x every position of the aborting handler x {Abort, AbortThen, AbortWithStatus(code), AbortWithStatus(code,msg), code incl. 200, optionally after the first handler recorded another status without committing} x abort before/after/without its own Next() x extra Next() after the abort x every subset of the other handlers calling/not calling Next() x body byte written before the abort or not; sampled: long chains with totals around 31..33 and 61..63 and random behaviours (incl. double Next). Observed: enter/leave/abort events and IsAborted() sampled at entry, before/after the abort call and at leave of every handler, status/body at the recording writer. Oracle: specification-level interpreter of Next/Abort. Non-trivial: every case (each has an abort); distinct by chain description."
 	e.Assumptions = []string{
 		"total chain length <= 63 (the largest the registration limit admits without global middleware)",
 		"IsAborted()==true without an abort is attributed to known finding KF1 only if the observed trace equals the cursor model's trace and differs from the specification only in such samples",
@@ -327,7 +335,10 @@ func runC05(e *Env) {
 			if k == j {
 				h.Ab = &abortPlan{Kind: kind, When: when, ExtraNext: extra, WriteBefore: write}
 				if strings.HasPrefix(kind, "AbortWithStatus") {
-					h.Ab.Code = []int{401, 403, 500, 418}[(j+L)%4]
+					h.Ab.Code = []int{401, 403, 500, 418, 200}[(j+L+int(subset))%5]
+					if (t.Idx/3)%2 == 0 {
+						h.Ab.PreStatus = []int{503, 201, 404}[(t.Idx/5)%3]
+					}
 				}
 			} else {
 				if subset>>uint(bit)&1 == 1 {
@@ -336,6 +347,11 @@ func runC05(e *Env) {
 				bit++
 			}
 			cc.Chain = append(cc.Chain, h)
+		}
+		for _, h := range cc.Chain {
+			if h.Ab != nil && h.Ab.PreStatus != 0 {
+				cc.Chain[0].SetStatusFirst = h.Ab.PreStatus
+			}
 		}
 		// deterministic, varied split of the L-1 middleware
 		mw := L - 1
@@ -369,10 +385,18 @@ func runC05(e *Env) {
 			if k == j && !noAbort {
 				h.Ab = &abortPlan{Kind: pick(r, kinds), When: pick(r, whens), ExtraNext: chance(r, 1, 2), WriteBefore: chance(r, 1, 4)}
 				if strings.HasPrefix(h.Ab.Kind, "AbortWithStatus") {
-					h.Ab.Code = pick(r, []int{401, 403, 404, 500, 503})
+					h.Ab.Code = pick(r, []int{401, 403, 404, 500, 503, 200, 200, 204})
+					if chance(r, 1, 2) {
+						h.Ab.PreStatus = pick(r, []int{503, 404, 201, 200})
+					}
 				}
 			}
 			cc.Chain = append(cc.Chain, h)
+		}
+		for _, h := range cc.Chain {
+			if h.Ab != nil && h.Ab.PreStatus != 0 {
+				cc.Chain[0].SetStatusFirst = h.Ab.PreStatus
+			}
 		}
 		mw := total - 1
 		// route+group middleware must stay <= 62
@@ -458,6 +482,9 @@ func c05Check(t *T, cc c05Chain) {
 		committedBefore := ab.WriteBefore
 		if committedBefore {
 			wantStatus = 200
+			if ab.PreStatus != 0 {
+				wantStatus = ab.PreStatus // recorded by the first handler before the committing write
+			}
 			t.Count("abort.with_status_committed", 1)
 		} else {
 			t.Count("abort.with_status_uncommitted", 1)
@@ -479,6 +506,8 @@ func c05Check(t *T, cc c05Chain) {
 				t.Fail("abort-message-body", "chain %v: expected body %q, observed %q", cc.describe(), wantBody, rec.Body.String())
 			}
 		}
+	} else if ab != nil && ab.PreStatus != 0 && !ab.WriteBefore && (rec.Status() != ab.PreStatus || rec.NumWH() != 1) {
+		t.Fail("recorded-status-lost", "chain %v: the first handler recorded status %d and nobody changed it; the writer saw: %s", cc.describe(), ab.PreStatus, rec.CallLog())
 	} else if rec.NumWH() != 1 {
 		t.Fail("header-commits", "chain %v: %d WriteHeader calls reached the writer (%s)", cc.describe(), rec.NumWH(), rec.CallLog())
 	}
